@@ -822,6 +822,11 @@ class PosInterp:
             return a >> b
         raise self.err(node, 'operator')
 
+    def same(self, x: Any, y: Any) -> bool:
+        """what `x == y` answers inside list.index / remove / count, `in` and `==`: identity first, then equality; two mock objects are equal
+        only if they are the same object unless a client gives its mocks a notion of equal content (models compare by content)"""
+        return x is y or (not isinstance(x, Obj) and x == y)
+
     def compare(self, op: ast.cmpop, a: Any, b: Any, node: ast.AST) -> bool:
         if isinstance(op, ast.Is):
             return a is b
@@ -838,9 +843,12 @@ class PosInterp:
             s = self.sign_of(d, node)
             return {ast.Lt: s > 0, ast.LtE: s >= 0, ast.Gt: s < 0, ast.GtE: s <= 0}[type(op)]
         if isinstance(op, (ast.Eq, ast.NotEq)):
-            eq = a == b
+            eq = self.same(a, b) if isinstance(a, Obj) and isinstance(b, Obj) else a == b
             return eq if isinstance(op, ast.Eq) else not eq
         if isinstance(op, (ast.In, ast.NotIn)):
+            if isinstance(a, Obj) and not isinstance(b, (dict, str)):
+                found = any(self.same(x_, a) for x_ in self.iter_of(b, node))
+                return found if isinstance(op, ast.In) else not found
             found = a in (b if isinstance(b, (dict, str)) else self.iter_of(b, node))
             return found if isinstance(op, ast.In) else not found
         raise self.err(node, f'comparison of {a!r} and {b!r}')
@@ -960,6 +968,17 @@ class PosInterp:
                     return self.expr(k_, {})
             if isinstance(base, (range, slice)) and e.attr in ('start', 'stop', 'step'):
                 return getattr(base, e.attr)
+            if isinstance(base, slice) and e.attr == 'indices':
+                def _indices(n_: Any, _s: slice = base) -> tuple:
+                    if not isinstance(n_, int) or isinstance(n_, bool):
+                        raise AnalysisError(f'{self.tag}: unsupported slice.indices over an abstract length')
+                    try:
+                        return _s.indices(n_)
+                    except (TypeError, ValueError) as ex_:
+                        raise Raised(f'{type(ex_).__name__}: {ex_}')
+                return _PyFn(_indices)
+            if isinstance(base, range) and e.attr in ('index', 'count'):
+                return _PyFn(lambda v_, _r=base, _a=e.attr: getattr(_r, _a)(v_))
             if type(base).__name__ == 'Pattern' and e.attr in ('findall', 'finditer', 'fullmatch', 'match', 'search', 'split', 'sub', 'pattern', 'flags'):
                 return getattr(base, e.attr)          # a compiled pattern constant applied to a concrete text (stdlib re: trusted)
             if type(base).__name__ == 'Match' and e.attr in ('group', 'groups', 'start', 'end', 'span', 'groupdict', 'lastindex'):
@@ -977,7 +996,7 @@ class PosInterp:
                 return getattr(base, e.attr)
             if isinstance(base, str) and not e.attr.startswith('_') and hasattr(str, e.attr):
                 return getattr(base, e.attr)          # a method of a concrete text: every one of them is pure
-            if isinstance(base, list) and e.attr in ('append', 'extend', 'pop', 'reverse', 'insert', 'clear', 'copy', 'index', 'remove', 'discard', 'add'):
+            if isinstance(base, list) and e.attr in ('append', 'extend', 'pop', 'reverse', 'insert', 'clear', 'copy', 'index', 'count', 'remove', 'discard', 'add'):
                 return _ListAppend(base, e.attr)
             if isinstance(base, dict) and e.attr in ('get', 'items', 'keys', 'values', 'pop', 'setdefault', 'update', 'clear', 'copy'):
                 return _DictMethod(base, e.attr)
@@ -1132,11 +1151,11 @@ class PosInterp:
                     return f.lst.pop(*args)
                 elif f.how == 'discard':              # a set modelled as a list without duplicates
                     for i_, x_ in enumerate(f.lst):
-                        if x_ is args[0] or (not isinstance(x_, Obj) and x_ == args[0]):
+                        if self.same(x_, args[0]):
                             del f.lst[i_]
                             break
                 elif f.how == 'add':
-                    if not any(x_ is args[0] or (not isinstance(x_, Obj) and x_ == args[0]) for x_ in f.lst):
+                    if not any(self.same(x_, args[0]) for x_ in f.lst):
                         f.lst.append(args[0])
                 elif f.how == 'reverse':
                     f.lst.reverse()
@@ -1147,13 +1166,16 @@ class PosInterp:
                 elif f.how == 'copy':
                     return list(f.lst)
                 elif f.how == 'index':
-                    for i_, x_ in enumerate(f.lst):
-                        if x_ is args[0] or (not isinstance(x_, Obj) and x_ == args[0]):
+                    rng_ = range(*slice(*args[1:3]).indices(len(f.lst))) if len(args) > 1 else range(len(f.lst))
+                    for i_ in rng_:
+                        if self.same(f.lst[i_], args[0]):
                             return i_
-                    raise Raised('ValueError')
+                    raise Raised('ValueError: x is not in list')
+                elif f.how == 'count':
+                    return sum(1 for x_ in f.lst if self.same(x_, args[0]))
                 elif f.how == 'remove':
                     for i_, x_ in enumerate(f.lst):
-                        if x_ is args[0] or (not isinstance(x_, Obj) and x_ == args[0]):
+                        if self.same(x_, args[0]):
                             del f.lst[i_]
                             return None
                     raise Raised('ValueError')
